@@ -3,51 +3,74 @@
 import json, os, re
 HERE = os.path.dirname(os.path.dirname(os.path.abspath(__file__)))
 exp = json.load(open(os.path.join(HERE, 'selftest', 'expect.json')))
-rows = []
+rows = {1: [], 2: [], 3: []}
 n = c = 0
+missed = []
 for sid in sorted(os.listdir(os.path.join(HERE, 'seeded'))):
     mp = os.path.join(HERE, 'seeded', sid, 'meta.json')
     if not os.path.exists(mp):
         continue
     m = json.load(open(mp))
+    e = exp.get('seeded/' + sid)
+    if e is not None:       # the kill matrix is the reference for what fires today
+        m['checks_that_fire'] = e['fires']
+        m['caught_by_target_check'] = m['breaks_property'] in e['fires']
+        if not m['caught_by_target_check']:
+            m['why_not_caught'] = ("the change replaces a formula by one that is algebraically identical over the reals and only overflows / loses accuracy in "
+                                   "floating-point or integer arithmetic; the technique decides over exact field arithmetic (DESIGN.md section 4)")
+        else:
+            m.pop('why_not_caught', None)
+        json.dump(m, open(mp, 'w'), indent=1)
     n += 1
     c += bool(m['caught_by_target_check'])
-    rows.append("| `%s` | %s | %s | %s | %s |" % (sid, m['breaks_property'], m['needs_to_manifest'].replace('|', '/'),
-                                              'yes' if m['caught_by_target_check'] else '**no** (floating-point only)', ' '.join(m['checks_that_fire'])))
+    if not m['caught_by_target_check']:
+        missed.append(sid)
+    rnd = 3 if sid.startswith('R3-') else 2 if sid.startswith('R2-') else 1
+    rows[rnd].append("| `%s` | %s | %s | %s | %s |" % (sid, m['breaks_property'], m['needs_to_manifest'].replace('|', '/'),
+                                                   'yes' if m['caught_by_target_check'] else '**no** (arithmetic overflow only)', ' '.join(m['checks_that_fire']) or '-'))
 head = """# Independent breaking changes (sub-agents)
 
-One sub-agent per property, given only the property text and a private worktree, was asked for a change that breaks the property while the crate compiles
-and the 99 + 11 existing tests still pass, with a demonstration that fails with the change and passes without it. Every change below was re-confirmed by
-`tools/verify_seed.py` in a scratch worktree before being kept (`meta.json: confirmed`). `patch.diff` applies to /repo at the commit of the last `fix:`;
-`demo.rs` is an integration test (copy to `tests/`). None of these changes is ever committed to /repo. `_agent_notes/` keeps the agents' own notes.
+Three rounds of sub-agents (round 1 and 2: one per property, two changes each; round 3: one per pair of properties, two changes per property), each given only the
+property text and a private worktree, were asked for a change that breaks the property while the crate compiles and the 99 + 11 existing tests still pass, with a
+demonstration that fails with the change and passes without it. Every change below was re-confirmed by `tools/verify_seed.py` in a scratch worktree before being
+kept (`meta.json: confirmed`). `patch.diff` applies to /repo at the commit of the last `fix:`; `demo.rs` is an integration test (copy to `tests/`). None of these
+changes is ever committed to /repo. `_agent_notes/` keeps the agents' own notes (also those of the behaviour-preserving refactorings and feature additions, which
+live in `selftest/neutral_*.diff`).
 
 To run the checks against one: `tools/trypatch.py seeded/<id>/patch.diff Cxx ...` (applies to /repo, runs, always restores) or the thorough tier, which applies
-them to scratch copies outside /repo.
+them to scratch copies outside /repo. The last column is what the kill matrix (`python3 ndi/selftest.py matrix`, recorded in `selftest/expect.json`) shows today.
 
-| id | breaks | needs, in order to manifest | reported by the target check | all checks that fire |
-|----|--------|-----------------------------|------------------------------|----------------------|
 """
-tail = """
-
-%d of %d are reported by the check of the property they were written against (further fire-list entries are other properties the change also breaks, or
-checks that cannot extract their kernel from the changed code and fail closed). The ones that are not reported replace a formula by an algebraically identical
-one that overflows / loses accuracy in floating point - outside what a decision over exact field arithmetic can see (DESIGN.md section 4).
-""" % (c, n)
-open(os.path.join(HERE, 'seeded', 'README.md'), 'w').write(head + "\n".join(rows) + tail)
+tbl = "| id | breaks | needs, in order to manifest | reported by the target check | all checks that fire |\n|----|--------|-----------------------------|------------------------------|----------------------|\n"
+body = ""
+for rnd in (1, 2, 3):
+    body += "## Round %d (%d changes)\n\n" % (rnd, len(rows[rnd])) + tbl + "\n".join(rows[rnd]) + "\n\n"
+tail = """%d of %d are reported by the check of the property they were written against (further fire-list entries are other properties the change also breaks, or
+checks that cannot extract their kernel from the changed code and fail closed). The %d that are not reported (%s) replace a formula by an algebraically identical
+one that overflows / loses accuracy in floating-point or integer arithmetic - outside what a decision over exact field arithmetic can see (DESIGN.md section 4).
+""" % (c, n, len(missed), ', '.join('`%s`' % s for s in missed))
+open(os.path.join(HERE, 'seeded', 'README.md'), 'w').write(head + body + tail)
 # DESIGN.md tables
-hand = ["| `%s` | %s | %s |" % (k, v['target'] or '(none: behaviour-preserving refactoring)', ' '.join(v['fires']) or '-')
-        for k, v in sorted(exp.items()) if not k.startswith('seeded/')]
+hand = ["| `%s` | %s | %s |" % (k, v['target'], ' '.join(v['fires']) or '-')
+        for k, v in sorted(exp.items()) if not k.startswith('seeded/') and not k.startswith('neutral')]
 t1 = "| seeded violation (selftest/*.diff) | target | checks that fire |\n|---|---|---|\n" + "\n".join(hand)
 seed = ["| `%s` | %s | %s | %s |" % (k[7:], v['target'], 'yes' if v['target'] in v['fires'] else '**no**', ' '.join(v['fires']) or '-')
         for k, v in sorted(exp.items()) if k.startswith('seeded/')]
 t2 = "| independent change (seeded/<id>) | written against | reported by that check | checks that fire |\n|---|---|---|---|\n" + "\n".join(seed)
+neutral = sorted(k for k in exp if k.startswith('neutral'))
+groups = [("hand-written refactorings", [k for k in neutral if not k.startswith(('neutral_agent', 'neutral_feature', 'neutral_rename'))]),
+          ("sub-agent refactorings (12 areas x 3)", [k for k in neutral if k.startswith('neutral_agent')]),
+          ("sub-agent additive changes (accessors, new strategy, code moves, doc/lint pass, tests)", [k for k in neutral if k.startswith('neutral_feature')]),
+          ("sub-agent renames of private items and module reorganisations", [k for k in neutral if k.startswith('neutral_rename')])]
+t3 = "| behaviour-preserving patches (selftest/neutral_*.diff) | count | checks that fire |\n|---|---|---|\n" + \
+     "\n".join("| %s: %s | %d | none |" % (g, ' '.join('`%s`' % k[8:] for k in ks), len(ks)) for g, ks in groups if ks)
 p = os.path.join(HERE, 'DESIGN.md')
 s = open(p).read()
 s = re.sub(r"### 5\.1 Kill matrix of the hand-seeded violations\n.*?### 5\.2", "### 5.1 Kill matrix of the hand-seeded violations\n\n" +
-           "Each row was produced by `python3 ndi/selftest.py matrix` (all 20 checks against a scratch copy with the patch). `d*_prefix_*` are the five defects re-introduced; "
-           "`neutral_*` are behaviour-preserving refactorings on which no check may fire.\n\n" + t1 + "\n\n### 5.2", s, flags=re.S)
+           "Each row was produced by `python3 ndi/selftest.py matrix` (all 20 checks against a scratch copy with the patch). `d*_prefix_*` are the five defects re-introduced.\n\n" +
+           t1 + "\n\n" + t3 + "\n\n### 5.2", s, flags=re.S)
 s = re.sub(r"### 5\.2 Independent breaking changes\n.*?\n---------------------------------------------------------------------------\n\n## Appendix A",
            "### 5.2 Independent breaking changes\n\n%d of %d are reported by the check they were written against; details in `seeded/README.md`.\n\n" % (c, n) + t2 +
            "\n\n---------------------------------------------------------------------------\n\n## Appendix A", s, flags=re.S)
 open(p, 'w').write(s)
-print(n, c)
+print(n, c, missed, len(neutral))
